@@ -292,6 +292,21 @@ impl Session {
     }
 }
 
+/// a synchronous round trip on a channel: when it returns, everything handed to that channel
+/// before has been written (same mailbox, same out-buffer, in order) - the observation window
+/// of an operation is delimited by these instead of by waiting for the wire to go quiet
+const BARRIER: (u32, u16) = (0x0BA2_21E2, 54321);
+fn barrier(ch: &Channel) -> bool {
+    ch.qos(BARRIER.0, BARRIER.1, false).is_ok()
+}
+fn is_barrier(f: &crate::wire::RawFrame) -> bool {
+    if f.ty != 1 {
+        return false;
+    }
+    let (c, m, fs) = parse_raw_method(&f.payload);
+    c == 60 && m == 10 && matches!(fs.as_slice(), [FV::N(a), FV::N(b), FV::B(false)] if *a == BARRIER.0 as u64 && *b == BARRIER.1 as u64)
+}
+
 fn get_delivery(ch: &Channel) -> Option<(amiquip::Consumer, Delivery)> {
     let c = ch.basic_consume("q-for-delivery", ConsumerOptions::default()).ok()?;
     match c.receiver().recv_timeout(Duration::from_secs(2)) {
@@ -368,9 +383,7 @@ pub fn run_op(sess: &mut Session, mut op: Op) -> Option<(Op, Option<Vec<((u64, u
         }
         _ => {}
     }
-    // wrappers need their Queue / Exchange objects: created with nowait declares
-    let base = sess.settle();
-    let _ = base;
+    let base = if barrier(&ch) && barrier(&ch_other) { sess.raw().len() } else { sess.settle() };
     let mut failed = false;
     let mut panicked = false;
     // ---- the operation ----
@@ -472,12 +485,15 @@ pub fn run_op(sess: &mut Session, mut op: Op) -> Option<(Op, Option<Vec<((u64, u
             Ok(Ok(())) => {}
         }
     }
-    let end = sess.settle();
+    let end = if barrier(&ch) && barrier(&ch_other) { sess.raw().len() } else { sess.settle() };
     let frames = sess.raw();
     let end = end.min(frames.len());
     let mut on_target = Vec::new();
     let mut other_ch = false;
     for f in &frames[base.min(end)..end] {
+        if is_barrier(f) {
+            continue;
+        }
         if f.ty == 1 && f.ch == target && f.end_ok {
             on_target.push((parse_raw_method(&f.payload), f.payload.clone()));
         } else if f.ty != 8 {
@@ -524,7 +540,7 @@ pub fn run_op_wrapped(sess: &mut Session, op: Op) -> Option<(Op, Option<Vec<((u6
         // the other exchange lives on another channel of the connection: whatever is emitted has
         // to go out on the channel of the handle the call is made on
         let x_other = ch2.as_ref().unwrap_or(&ch).exchange_declare_nowait(ExchangeType::Direct, other.clone(), ExchangeDeclareOptions::default()).ok()?;
-        base = sess.settle();
+        base = if barrier(&ch) && ch2.as_ref().map_or(true, |c| barrier(c)) { sess.raw().len() } else { sess.settle() };
         let r = catch_unwind(AssertUnwindSafe(|| -> amiquip::Result<()> {
             match &op {
                 Op::Get { no_ack, .. } => qobj.as_ref().unwrap().get(*no_ack).map(|_| ()),
@@ -576,18 +592,25 @@ pub fn run_op_wrapped(sess: &mut Session, op: Op) -> Option<(Op, Option<Vec<((u6
         }
     }
     let mut close_base = None;
+    let end;
     if let Op::ChannelClose = &op {
-        close_base = Some(sess.settle());
+        close_base = Some(if barrier(&ch) && ch2.as_ref().map_or(true, |c| barrier(c)) { sess.raw().len() } else { sess.settle() });
         failed = ch.close().is_err();
         panicked = false;
+        // Channel::close is a round trip itself
+        end = if !failed { sess.raw().len() } else { sess.settle() };
+    } else {
+        end = if barrier(&ch) && ch2.as_ref().map_or(true, |c| barrier(c)) { sess.raw().len() } else { sess.settle() };
     }
-    let end = sess.settle();
     let frames = sess.raw();
     let end = end.min(frames.len());
     let start = close_base.unwrap_or(base);
     let mut on_target = Vec::new();
     let mut other_ch = false;
     for f in &frames[start.min(end)..end] {
+        if is_barrier(f) {
+            continue;
+        }
         if f.ty == 1 && f.ch == target && f.end_ok {
             on_target.push((parse_raw_method(&f.payload), f.payload.clone()));
         } else if f.ty != 8 {
